@@ -280,7 +280,6 @@ Qed.
 Definition anchors (r : re_id) : list str :=
   match r with
   | ATTRIB_RE => s "bind" :: s "intent" :: attrib_words
-  | END_RE => [s "end"]
   | MODPROC_RE => [s "module"; s "procedure"]
   | BLOCK_DATA_RE => [s "block"]
   | MODULE_RE => [s "module"] | SUBMODULE_RE => [s "submodule"] | PROGRAM_RE => [s "program"]
@@ -325,7 +324,6 @@ Proof.
     unfold attrib_re. rewrite (match_ci_none (s "bind") x) by assumption.
     unfold match_intent. rewrite (match_ci_none (s "intent") x) by assumption.
     rewrite attrib_alts_none; [reflexivity|]. unfold none_prefix. now rewrite H.
-  - unfold end_re. now rewrite (match_ci_none (s "end") x).
   - unfold modproc_re. rewrite (match_ci_none (s "module") x) by assumption.
     now rewrite (match_ci_none (s "procedure") x).
   - unfold block_data_re. now rewrite (match_ci_none (s "block") x).
@@ -351,6 +349,15 @@ Lemma format_miss x : (match lower x with c :: _ => is_digit c | [] => false end
 Proof.
   intros H. cbn [re_match]. unfold format_re. destruct x as [|c r]; [reflexivity|].
   cbn [lower map] in H. rewrite is_digit_lower_ch in H. cbn [take_while]. now rewrite H.
+Qed.
+
+(* END_RE: an optional statement label, then "end" *)
+Lemma end_miss x : (match lower x with c :: _ => is_digit c | [] => false end) = false ->
+  prefix (s "end") (lower x) = false -> re_match END_RE x = No.
+Proof.
+  intros D P. cbn [re_match]. unfold end_re. destruct x as [|c r]; [reflexivity|].
+  cbn [lower map] in D. rewrite is_digit_lower_ch in D. cbn [take_while]. rewrite D.
+  unfold end_core. now rewrite (match_ci_none (s "end") (c :: r) P).
 Qed.
 
 (* ------------------------------------------------------------------ the two unanchored patterns *)
@@ -658,6 +665,7 @@ Qed.
 Definition kw_excludes (k : str) (r : re_id) : bool :=
   match r with
   | FORMAT_RE => match k with c :: _ => negb (is_digit c) | [] => false end
+  | END_RE => match k with c :: _ => negb (is_digit c) && conflict (s "end") k | [] => false end
   | _ => anchored r && forallb (fun w => conflict w k) (anchors r)
   end.
 
@@ -677,9 +685,12 @@ Proof.
     now rewrite (conflict_prefix w k _ F1), (IH F2). }
   destruct r; cbn [kw_excludes] in H;
     try (apply andb_true_iff in H as [A F]; exact (G A F)).
-  (* FORMAT_RE *)
-  apply format_miss. rewrite (lower_kw_line m k rest L). destruct k as [|c k]; [discriminate|].
-  cbn [app]. now apply negb_true_iff.
+  - (* FORMAT_RE *)
+    apply format_miss. rewrite (lower_kw_line m k rest L). destruct k as [|c k]; [discriminate|].
+    cbn [app]. now apply negb_true_iff.
+  - (* END_RE *)
+    destruct k as [|c k]; [discriminate|]. apply andb_true_iff in H as [D C]. apply negb_true_iff in D.
+    apply end_miss; rewrite (lower_kw_line m (c :: k) rest L); [exact D|now apply conflict_prefix].
 Qed.
 
 (* a branch that cannot fire on a line beginning with the keyword k, for any of these reasons: the
